@@ -61,7 +61,7 @@ def jfmt(rnd, twoj):
     return rnd.choice(["%d/2" % twoj, twoj / 2])
 
 
-def gen_config(rnd, quick):
+def gen_config(rnd, quick, cpar=False):
     n = rnd.choice([3, 3, 4])
     finals = rnd.sample(FINAL_POOL, n)
     twoj = {f: rnd.choice([0, 0, 2, 1]) for f in finals}
@@ -76,7 +76,7 @@ def gen_config(rnd, quick):
         d[key("mass")] = round(rnd.uniform(0.1, 5.0), 3)
         if res:
             d[key("width")] = round(rnd.uniform(0.01, 0.3), 3)
-            if rnd.random() < 0.25:
+            if rnd.random() < (0.7 if cpar else 0.25):
                 d["C"] = rnd.choice([1, -1])
             if rnd.random() < 0.15:
                 d["float"] = rnd.choice([["m"], ["g"], ["m", "g"], "mg"])
@@ -114,7 +114,7 @@ def gen_config(rnd, quick):
         opts = {}
         if rnd.random() < 0.3:
             opts["p_break"] = rnd.random() < 0.8
-        if rnd.random() < 0.15:
+        if rnd.random() < (0.75 if cpar else 0.15):
             opts["c_break"] = False
         if rnd.random() < 0.15:
             opts["l_list"] = sorted(rnd.sample(range(0, 4), rnd.randrange(1, 3)))
@@ -172,8 +172,16 @@ def gen_config(rnd, quick):
             particle[sl] = []
             continue
         cand = []
+        base_jp = None
         for nm in names:
             pr = props(rnd.choice([0, 2, 4]) + tj_par, True)
+            if cpar:
+                # C-parity family: the candidates of one slot share J and P and differ (at most) in C
+                jp = {k: v for k, v in pr.items() if k in ("J", "P", "Par")}
+                if base_jp is None:
+                    base_jp = jp
+                else:
+                    pr = dict(base_jp, **{k: v for k, v in pr.items() if k not in ("J", "P", "Par")})
             allres.append(nm)
             where = rnd.choice(["main", "main", "inc", "both", "inline"])
             if where == "inline":
@@ -658,14 +666,14 @@ def run(ctx):
     ctx.rule = ("seeded generator over the decay-card grammar: 3- or 4-body final state, 1..3 random binary decay trees sharing resonance slots, "
                 "per slot a candidate list (names / inline property dict / nested map / empty / the slot itself), properties in the main file, an "
                 "included file or both (override), aliases Par/m0/g0 at random, per-decay options p_break/c_break/l_list/ls_list/model/curve_style "
-                "in one or two option dicts, single- and multi-alternative cards, shuffled key order; spins 0..5/2, random parities so that the ls cut "
+                "in one or two option dicts, single- and multi-alternative cards, shuffled key order; spins 0..5/2, random parities so that the ls cut (every 5th config: C-parity family, candidates of a slot share J^P and differ in C, c_break False) "
                 "removes chains; each config: 2 loads here + 1 in a fresh process + expanded form + permuted keys + export/reload; "
                 "distinct = distinct configs whose load gives >= 2 chains")
     common.theorem_stage(ctx)
     ncfg = 60 if quick else 600
     cases = {}
     for k in range(ncfg):
-        cfg, share = gen_config(rnd, quick)
+        cfg, share = gen_config(rnd, quick, cpar=(k % 5 == 4))
         cases["c%d" % k] = (cfg, share)
     # fresh process
     inp, outp = os.path.join(ctx.dir, "configs.json"), os.path.join(ctx.dir, "fresh.json")
